@@ -5,7 +5,7 @@
 # MODE=inplace applies the patch to /repo itself and undoes it afterwards.
 set -u
 P=$(readlink -f "$1"); shift
-cd /verif
+cd "$(dirname "$(readlink -f "$0")")/.."
 if [ "${MODE:-worktree}" = inplace ]; then
   git -C /repo diff --quiet || { echo "/repo is dirty"; exit 2; }
   git -C /repo apply "$P" || { echo "patch does not apply"; exit 2; }
@@ -18,6 +18,6 @@ else
   export VERIF_REPO=$WT
 fi
 for id in "$@"; do
-  out=$(VERIF_EVIDENCE_DIR=/tmp/mutant-evidence ./check "$id" ${TIER:-quick} 2>&1); rc=$?
+  out=$(VERIF_EVIDENCE_DIR=${MUTANT_EVIDENCE:-/tmp/mutant-evidence} ./check "$id" ${TIER:-quick} 2>&1); rc=$?
   echo "--- $id rc=$rc"; echo "$out" | grep -E "VIOLATION|id=|KNOWN|INCONCLUSIVE|evaluations=" | cut -c1-400 | head -${LINES_MAX:-12}
 done
